@@ -188,6 +188,12 @@ class FullCampaign(object):
             else:
                 stats.notes['schema_build_failed'] += 1
                 stats.notes['build_failure: ' + str(ex)[:160].replace('\n', ' ')] += 1
+                msg = cpph.compile_errors(ex) if isinstance(ex, cpph.BuildFailed) else ''
+                if msg and not stats.violations:
+                    # every C++ property presupposes that the generated codec compiles against the shipped headers
+                    schema = chunk[0][0]
+                    stats.violations.append({'what': "the generated C++ codec of an accepted schema does not compile: " + msg,
+                                             'case': common.case_payload(schema, None, None, {'compiler': msg})})
             return
         try:
             rw = RefWire(merged)
